@@ -608,6 +608,8 @@ impl TxPoolServiceBuilder {
             network,
             consensus,
             fee_estimator: self.fee_estimator,
+            #[cfg(feature = "verif-hooks")]
+            verif_inflight: Default::default(),
         };
 
         let mut verify_mgr =
@@ -706,6 +708,8 @@ impl TxPoolServiceBuilder {
             loop {
                 tokio::select! {
                     Some(message) = reorg_receiver.recv() => {
+                        #[cfg(feature = "verif-hooks")]
+                        let _verif_guard = service.verif_inflight.enter();
                         let Notify {
                             arguments: (detached_blocks, attached_blocks, detached_proposal_id, snapshot),
                         } = message;
@@ -757,6 +761,9 @@ pub(crate) struct TxPoolService {
     pub(crate) verify_queue: Arc<RwLock<VerifyQueue>>,
     pub(crate) block_assembler_sender: mpsc::Sender<BlockAssemblerMessage>,
     pub(crate) fee_estimator: FeeEstimator,
+    /// verification-harness hook: in-flight activities, see `verif::VerifDump::inflight`
+    #[cfg(feature = "verif-hooks")]
+    pub(crate) verif_inflight: crate::verif::VerifInflight,
 }
 
 /// tx verification result
@@ -1084,6 +1091,12 @@ async fn process(mut service: TxPoolService, message: Message) {
             let mut dump = service.tx_pool.read().await.verif_dump();
             dump.verify_queue_len = service.verify_queue.read().await.len() as u64;
             dump.orphan_len = service.orphan.read().await.len() as u64;
+            dump.verify_queue = service.verify_queue.read().await.verif_entries();
+            let (orphans, index) = service.orphan.read().await.verif_dump();
+            dump.orphans = orphans;
+            dump.orphan_by_out_point = index;
+            // read last: an activity that emptied the queue is still counted here
+            dump.inflight = service.verif_inflight.get();
             if let Err(e) = responder.send(dump) {
                 error!("Responder sending verif_dump failed {:?}", e)
             };
